@@ -24,7 +24,7 @@ def get (c : Ctx) : ElRef → Option Elem
   | .prev => c.prev
 
 /-- `get_target_element`: follow `use`/`reuse` hrefs; `fuel` bounds the chain (a cycle is reported by
-    the code through `seen`; with fuel = number of elements + 1 a cycle also exhausts the fuel). -/
+    the code through `seen`; with fuel = number of elements + 2 (the element itself, `^`, then distinct registered elements) a cycle also exhausts the fuel). -/
 def target (c : Ctx) : Nat → Elem → Except Err Elem
   | 0, _ => .error .circular
   | fuel + 1, e =>
@@ -50,7 +50,7 @@ def extractUrlref (s : Str) : Option ElRef :=
 def bboxOf (c : Ctx) : Nat → List ElRef → Elem → Except Err (Option BoundingBox)
   | 0, _, _ => .error .circular
   | fuel + 1, seen, e => do
-    let t ← c.target (c.elems.length + 1) e
+    let t ← c.target (c.elems.length + 2) e
     let b ← t.bbox
     let b ← (if e.name == cs!"use" || e.name == cs!"reuse" then
         match e.getAttr ['x'], e.getAttr ['y'], b with
@@ -95,7 +95,7 @@ def sizeRaw (c : Ctx) : Nat → Elem → Except Err (Option (Rat × Rat))
       | some v => (num v).map some | none => (pure none : Except Err (Option Rat)))
     let (w, h) ←
       (if e.name == cs!"use" || e.name == cs!"reuse" then do
-        let t ← c.target (c.elems.length + 1) e
+        let t ← c.target (c.elems.length + 2) e
         match ← sizeRaw c fuel t with
         | some (tw, th) => pure (some tw, some th)
         | none => pure (w0, h0)
@@ -450,7 +450,7 @@ def dirPlace (rel : DirSpec) (ref : BoundingBox) (tw th gap : Rat) : Rat × Rat 
 /-- `place_at` -/
 def placeAt (c : Ctx) (e : Elem) (x y : Rat) : Except Err Elem :=
   if e.name == cs!"use" then do
-    let t ← c.target (c.elems.length + 1) e
+    let t ← c.target (c.elems.length + 2) e
     match ← t.bbox with
     | some b =>
       let (dx, dy) := b.locspec LocSpec.TopLeft
@@ -635,7 +635,7 @@ def usePosition (c : Ctx) (e : Elem) (p : Position) : Except Err (Position × Op
       match c.get r with
       | none => throw Err.reference
       | some el =>
-        let t ← c.target (c.elems.length + 1) el
+        let t ← c.target (c.elems.length + 2) el
         let sz ← t.size c
         let p := (match sz with
           | some (w, h) => { p with width := some w, height := some h }
